@@ -138,6 +138,22 @@ def perform(call, P):
         return P[call["i"] - 1].simplify(bitslice=bool(call["bitslice"]), widening=bool(call["widening"]))
     if a == "pickle":
         return pickle.loads(pickle.dumps(P[call["i"] - 1], pickle.HIGHEST_PROTOCOL))
+    if a == "mapw":
+        from amoco.cas.mapper import mapper
+        x = P[call["i"] - 1]
+        m = mapper()
+        loc = X.reg("slot%d" % len(P), x.size)
+        m[loc] = x
+        if call["pk"] == 1:
+            m2 = pickle.loads(pickle.dumps(m, pickle.HIGHEST_PROTOCOL))
+            call["_same"] = (str(m) == str(m2)) and ser.tree(m[loc]) == ser.tree(m2[loc])
+            m = m2
+        return m[loc]
+    if a == "subst":
+        from amoco.cas.mapper import mapper
+        m = mapper()
+        m[P[0]] = P[call["j"] - 1]
+        return m(P[call["i"] - 1])
     raise AssertionError(a)
 
 
@@ -200,6 +216,9 @@ def replay(tid, beh, seed, threshold):
                 except Exception:
                     same = False
                 e["same"] = 1 if same else 0
+            if call["act"] == "mapw":
+                e["same"] = 1 if call.pop("_same", True) else 0
+                e.pop("_same", None)
             live = []
             for h, x in enumerate(P):
                 t = ser.tree(x)
